@@ -67,6 +67,24 @@ type c19Shape struct {
 	Build func(n string, s c19Shadow) string
 }
 
+// Binding entries of let / let* / flet / labels / macrolet are written with
+// these two markers in the shape templates; c19Spell turns them into the paren
+// spelling ((x init)) or the bracket spelling ([x init]) that docs/lang.md
+// uses ("Conventionally, braces are used with let to define the bindings").
+// Both are one character wide, so positions do not depend on the spelling.
+const (
+	c19EO = "\x01"
+	c19EC = "\x02"
+)
+
+func c19Spell(tmpl string, brackets bool) string {
+	o, c := "(", ")"
+	if brackets {
+		o, c = "[", "]"
+	}
+	return strings.ReplaceAll(strings.ReplaceAll(tmpl, c19EO, o), c19EC, c)
+}
+
 // once-guard used by the own-body shapes: the shadow's body evaluates the
 // target only the first time it runs.
 const c19Guard = "(cond (c19-once (set 'c19-once ()) " + c19Mark + ") (else 0))"
@@ -99,62 +117,62 @@ var c19Shapes = []c19Shape{
 	}},
 	// ---- let / let*
 	{Name: "let-body", Uses: "val", Build: func(n string, s c19Shadow) string {
-		return fmt.Sprintf("(let ((%s %s))\n  %s)\n", n, s.lambda(), c19Mark)
+		return fmt.Sprintf("(let (\x01%s %s\x02)\n  %s)\n", n, s.lambda(), c19Mark)
 	}},
 	{Name: "let-init-of-same-binding", Uses: "none", Build: func(n string, s c19Shadow) string {
-		return fmt.Sprintf("(let ((%s %s))\n  0)\n", n, c19Mark)
+		return fmt.Sprintf("(let (\x01%s %s\x02)\n  0)\n", n, c19Mark)
 	}},
 	{Name: "let-init-of-later-sibling", Uses: "val", Build: func(n string, s c19Shadow) string {
-		return fmt.Sprintf("(let ((%s %s)\n      (c19-x %s))\n  c19-x)\n", n, s.lambda(), c19Mark)
+		return fmt.Sprintf("(let (\x01%s %s\x02\n      \x01c19-x %s\x02)\n  c19-x)\n", n, s.lambda(), c19Mark)
 	}},
 	{Name: "let-init-of-earlier-sibling", Uses: "val", Build: func(n string, s c19Shadow) string {
-		return fmt.Sprintf("(let ((c19-x %s)\n      (%s %s))\n  c19-x)\n", c19Mark, n, s.lambda())
+		return fmt.Sprintf("(let (\x01c19-x %s\x02\n      \x01%s %s\x02)\n  c19-x)\n", c19Mark, n, s.lambda())
 	}},
 	{Name: "let-after-form", Uses: "val", Build: func(n string, s c19Shadow) string {
-		return fmt.Sprintf("(let ((%s %s))\n  0)\n%s\n", n, s.lambda(), c19Mark)
+		return fmt.Sprintf("(let (\x01%s %s\x02)\n  0)\n%s\n", n, s.lambda(), c19Mark)
 	}},
 	{Name: "let-before-form", Uses: "val", Build: func(n string, s c19Shadow) string {
-		return fmt.Sprintf("%s\n(let ((%s %s))\n  0)\n", c19Mark, n, s.lambda())
+		return fmt.Sprintf("%s\n(let (\x01%s %s\x02)\n  0)\n", c19Mark, n, s.lambda())
 	}},
 	{Name: "let*-body", Uses: "val", Build: func(n string, s c19Shadow) string {
-		return fmt.Sprintf("(let* ((%s %s))\n  %s)\n", n, s.lambda(), c19Mark)
+		return fmt.Sprintf("(let* (\x01%s %s\x02)\n  %s)\n", n, s.lambda(), c19Mark)
 	}},
 	{Name: "let*-init-of-same-binding", Uses: "none", Build: func(n string, s c19Shadow) string {
-		return fmt.Sprintf("(let* ((%s %s))\n  0)\n", n, c19Mark)
+		return fmt.Sprintf("(let* (\x01%s %s\x02)\n  0)\n", n, c19Mark)
 	}},
 	{Name: "let*-init-of-later-sibling", Uses: "val", Build: func(n string, s c19Shadow) string {
-		return fmt.Sprintf("(let* ((%s %s)\n       (c19-x %s))\n  c19-x)\n", n, s.lambda(), c19Mark)
+		return fmt.Sprintf("(let* (\x01%s %s\x02\n       \x01c19-x %s\x02)\n  c19-x)\n", n, s.lambda(), c19Mark)
 	}},
 	{Name: "let*-init-of-earlier-sibling", Uses: "val", Build: func(n string, s c19Shadow) string {
-		return fmt.Sprintf("(let* ((c19-x %s)\n       (%s %s))\n  c19-x)\n", c19Mark, n, s.lambda())
+		return fmt.Sprintf("(let* (\x01c19-x %s\x02\n       \x01%s %s\x02)\n  c19-x)\n", c19Mark, n, s.lambda())
 	}},
 	// ---- flet / labels
 	{Name: "flet-body", Uses: "fn", Build: func(n string, s c19Shadow) string {
-		return fmt.Sprintf("(flet ((%s %s %s))\n  %s)\n", n, s.Formals, c19ShadowProbe, c19Mark)
+		return fmt.Sprintf("(flet (\x01%s %s %s\x02)\n  %s)\n", n, s.Formals, c19ShadowProbe, c19Mark)
 	}},
 	{Name: "flet-own-body", Uses: "fn", Build: func(n string, s c19Shadow) string {
-		return fmt.Sprintf("(set 'c19-once true)\n(flet ((%s %s %s %s))\n  (%s%s))\n", n, s.Formals, c19ShadowProbe, c19Guard, n, s.entryArgs())
+		return fmt.Sprintf("(set 'c19-once true)\n(flet (\x01%s %s %s %s\x02)\n  (%s%s))\n", n, s.Formals, c19ShadowProbe, c19Guard, n, s.entryArgs())
 	}},
 	{Name: "flet-sibling-body", Uses: "fn", Build: func(n string, s c19Shadow) string {
-		return fmt.Sprintf("(flet ((%s %s %s)\n       (c19-g () %s))\n  (c19-g))\n", n, s.Formals, c19ShadowProbe, c19Mark)
+		return fmt.Sprintf("(flet (\x01%s %s %s\x02\n       \x01c19-g () %s\x02)\n  (c19-g))\n", n, s.Formals, c19ShadowProbe, c19Mark)
 	}},
 	{Name: "flet-after-form", Uses: "fn", Build: func(n string, s c19Shadow) string {
-		return fmt.Sprintf("(flet ((%s %s %s))\n  0)\n%s\n", n, s.Formals, c19ShadowProbe, c19Mark)
+		return fmt.Sprintf("(flet (\x01%s %s %s\x02)\n  0)\n%s\n", n, s.Formals, c19ShadowProbe, c19Mark)
 	}},
 	{Name: "flet-param-of-binding-reaching-body", Uses: "val", Build: func(n string, s c19Shadow) string {
-		return fmt.Sprintf("(flet ((c19-g (%s) %s))\n  (c19-g %s))\n", n, c19Mark, s.lambda())
+		return fmt.Sprintf("(flet (\x01c19-g (%s) %s\x02)\n  (c19-g %s))\n", n, c19Mark, s.lambda())
 	}},
 	{Name: "flet-param-of-unrelated-binding", Uses: "none", Build: func(n string, s c19Shadow) string {
-		return fmt.Sprintf("(flet ((c19-g (%s) %s))\n  %s)\n", n, n, c19Mark)
+		return fmt.Sprintf("(flet (\x01c19-g (%s) %s\x02)\n  %s)\n", n, n, c19Mark)
 	}},
 	{Name: "labels-body", Uses: "fn", Build: func(n string, s c19Shadow) string {
-		return fmt.Sprintf("(labels ((%s %s %s))\n  %s)\n", n, s.Formals, c19ShadowProbe, c19Mark)
+		return fmt.Sprintf("(labels (\x01%s %s %s\x02)\n  %s)\n", n, s.Formals, c19ShadowProbe, c19Mark)
 	}},
 	{Name: "labels-own-body", Uses: "fn", Build: func(n string, s c19Shadow) string {
-		return fmt.Sprintf("(set 'c19-once true)\n(labels ((%s %s %s %s))\n  (%s%s))\n", n, s.Formals, c19ShadowProbe, c19Guard, n, s.entryArgs())
+		return fmt.Sprintf("(set 'c19-once true)\n(labels (\x01%s %s %s %s\x02)\n  (%s%s))\n", n, s.Formals, c19ShadowProbe, c19Guard, n, s.entryArgs())
 	}},
 	{Name: "labels-sibling-body", Uses: "fn", Build: func(n string, s c19Shadow) string {
-		return fmt.Sprintf("(labels ((%s %s %s)\n         (c19-g () %s))\n  (c19-g))\n", n, s.Formals, c19ShadowProbe, c19Mark)
+		return fmt.Sprintf("(labels (\x01%s %s %s\x02\n         \x01c19-g () %s\x02)\n  (c19-g))\n", n, s.Formals, c19ShadowProbe, c19Mark)
 	}},
 	// ---- lambda / defun parameters
 	{Name: "lambda-param-body", Uses: "val", Build: func(n string, s c19Shadow) string {
@@ -165,10 +183,10 @@ var c19Shapes = []c19Shape{
 	}},
 	// ---- macrolet
 	{Name: "macrolet-body", Uses: "fn", Build: func(n string, s c19Shadow) string {
-		return fmt.Sprintf("(macrolet ((%s %s (quasiquote %s)))\n  %s)\n", n, s.Formals, c19ShadowProbe, c19Mark)
+		return fmt.Sprintf("(macrolet (\x01%s %s (quasiquote %s)\x02)\n  %s)\n", n, s.Formals, c19ShadowProbe, c19Mark)
 	}},
 	{Name: "macrolet-after-form", Uses: "fn", Build: func(n string, s c19Shadow) string {
-		return fmt.Sprintf("(macrolet ((%s %s (quasiquote %s)))\n  0)\n%s\n", n, s.Formals, c19ShadowProbe, c19Mark)
+		return fmt.Sprintf("(macrolet (\x01%s %s (quasiquote %s)\x02)\n  0)\n%s\n", n, s.Formals, c19ShadowProbe, c19Mark)
 	}},
 }
 
@@ -212,13 +230,32 @@ func c19ShadowCases() []c19ShadowCase {
 
 const c19ShadowMaxK = 4
 
+// c19BracketSubset selects the exhaustive cases that are enumerated a second
+// time in the bracket spelling of the binding entries: every shape that has
+// binding entries x a function, a macro and a special operator x a two-parameter
+// function shadow and the non-function shadow.  (The sampled family draws the
+// bracket spelling for all names and shadows.)
+func c19BracketSubset(sc c19ShadowCase) bool {
+	switch sc.Target {
+	case "car", "get-default", "if":
+	default:
+		return false
+	}
+	if !sc.Shadow.NonFn && sc.Shadow.Formals != "(a b)" && c19Shapes[sc.Shape].Uses != "none" {
+		return false
+	}
+	return strings.Contains(c19Shapes[sc.Shape].Build(sc.Target, sc.Shadow), c19EO)
+}
+
 // c19Wrap describes modifications the sampled family applies on top of an
 // exhaustive shadow case.
 type c19Wrap struct {
 	Inner  []string // wrapper templates around the target, innermost first; each has one c19Mark
 	Names  []string
 	Prefix string // lines put in front of the program
-	Args   func(k int) []string
+	// Brackets spells the shape's binding entries [x init] instead of (x init).
+	Brackets bool
+	Args     func(k int) []string
 }
 
 func (wr *c19Wrap) label() string {
@@ -250,20 +287,22 @@ func c19RunShadowCase(w *fw.W, sc c19ShadowCase, wr *c19Wrap, ks ...int) {
 	}
 	sh := c19Shapes[sc.Shape]
 	target := c19CoreFun(sc.Target)
-	base := sh.Build(sc.Target, sc.Shadow)
+	raw := sh.Build(sc.Target, sc.Shadow)
+	base := c19Spell(raw, false)
+	spelled := c19Spell(raw, wr != nil && wr.Brackets)
 	for _, k := range ks {
 		args := c19Ints(k, 101)
 		if wr != nil && wr.Args != nil {
 			args = wr.Args(k)
 		}
-		viol := c19JudgeShadow(w, &fnd, sh, target, sc.Shadow, c19ApplyWrap(base, wr), args, wr.label(), "")
+		viol := c19JudgeShadow(w, &fnd, sh, target, sc.Shadow, c19ApplyWrap(spelled, wr), args, wr.label(), "")
 		if viol && wr != nil {
 			// attribute: does the plain (exhaustive) form of the case violate too?
 			var plain c19Findings
 			if !c19JudgeShadow(w, &plain, sh, target, sc.Shadow, base, c19Ints(k, 101), "", "") {
 				// only the wrapped form violates: re-key with the wrapper
 				fnd = c19Findings{}
-				c19JudgeShadow(w, &fnd, sh, target, sc.Shadow, c19ApplyWrap(base, wr), args, wr.label(), ":only-when-wrapped")
+				c19JudgeShadow(w, &fnd, sh, target, sc.Shadow, c19ApplyWrap(spelled, wr), args, wr.label(), ":only-when-wrapped")
 			}
 		}
 	}
